@@ -814,6 +814,7 @@ def run(ck: Ck) -> None:
             # what writers do with the views they look at (0 read, 1 append through find_or_insert/find_or_extend/.append)
             # constants of the file container the model Fmt/BspContainer.v is instantiated with
             'container_layout_as_modelled': 'layout_eqb bsp_layout std_layout',
+            'container_layout_ok': 'layout_ok bsp_layout',
             'container_struct_formats_as_modelled': 'list_eqb String.eqb bsp_container_formats '
                                                     '("<4si" :: "<4i" :: "<i" :: "<4s HH ii" :: nil)%string',
             'readers_only_read_the_views_they_look_at': 'forallb (fun u => Nat.eqb (snd u) 0) bsp_reader_uses',
